@@ -320,7 +320,15 @@ pub fn pipeline(out: &mut Outcome, cfg: &RouterConfig, rules: &[Rule], requests:
             }
             let log = action.should_log_request(true, fin, None);
             let l = Log::from_proxy(&req, fin, &headers, Some(&action), "proxy", 0, "10.1.2.3, garbage");
-            (log, serde_json::to_string(&l).map(|s| s.len()).unwrap_or(0), serde_json::to_string(&action).map(|s| s.len()).unwrap_or(0))
+            // round 4 (source coverage showed these two public entry points unexecuted): the legacy log record built from the raw
+            // request parts, and the header map built from the raw request headers (names that are no header names included)
+            let legacy: Option<redirectionio::api::LegacyLog> = serde_json::from_value(serde_json::json!({
+                "status_code": fin, "host": raw.host, "method": raw.method, "request_uri": raw.path_and_query_skipped.original, "user_agent": raw.headers.first().map(|h| h.value.clone()),
+                "referer": raw.headers.last().map(|h| h.name.clone()), "scheme": raw.scheme, "use_json": true, "target": raw.headers.first().map(|h| h.value.clone()), "rule_id": null,
+            })).ok();
+            let ll = legacy.map(|x| serde_json::to_string(&Log::from_legacy(x, "proxy".to_string())).map(|s| s.len()).unwrap_or(0)).unwrap_or(0);
+            let hm = Header::create_header_map(raw.headers.iter().map(|h| Header { name: h.name.clone(), value: h.value.clone() }).collect()).len();
+            (log, serde_json::to_string(&l).map(|s| s.len()).unwrap_or(0) + ll + hm, serde_json::to_string(&action).map(|s| s.len()).unwrap_or(0))
         });
         if ok.is_none() {
             return;
@@ -591,7 +599,7 @@ pub fn run(ctx: &Ctx) -> Report {
     let mut rep = Report::new(
         "C07",
         "pipelines: case = generated router case (C01 pools, full actions) whose rules JSON gets adversarial substitutions (marker expressions: invalid / huge repetition / nested / empty; transformer options: from>to, beyond length, negative, non-numeric; unknown header kinds; garbage CIDR / date / weekday / method / target with every URL scheme; variables of every kind; weird CSS selectors; garbage examples; limits of sampling and rank) \
-         and 0..2 structure-aware mutations (delete / retype a field at a generated JSON pointer), raw requests (arbitrary URI / host / Forwarded headers), a response body (soup or bytes); every public entry point is called under catch_unwind: deserialise, router build, cache, rebuild, match, trace, get_trace, get_route, TraceAction, get_target, capture, action, proxy call order incl. body filtering and Log::from_proxy, \
+         and 0..2 structure-aware mutations (delete / retype a field at a generated JSON pointer), raw requests (arbitrary URI / host / Forwarded headers), a response body (soup or bytes); every public entry point is called under catch_unwind: deserialise, router build, cache, rebuild, match, trace, get_trace, get_route, TraceAction, get_target, capture, action, proxy call order incl. body filtering, Log::from_proxy, Log::from_legacy and Header::create_header_map, \
          then the four analyses in their stand-alone and project variants, Request::from_str, Addr parsing; probes (child processes): every null / non-null argument pattern of the extern C functions (exhaustive), long raw-text elements (1 B .. 8 MiB, 6 script variants) in the optimised and in the unoptimised build under a 2 MiB stack; \
          oracle = every call returns normally (no unwind, child survives, no watchdog); non-trivial = the input deserialised, >=1 rule matched and the action was applied, or a probe ran; distinct by case hash / by construction",
     );
